@@ -6,6 +6,7 @@ import (
 	"sort"
 
 	"os"
+	"sync"
 	"time"
 
 	"github.com/markusressel/fan2go/internal/configuration"
@@ -315,6 +316,65 @@ func c13Tachless(ctx *Ctx, r *rand.Rand) {
 	}
 }
 
+// c13ConcurrentAttach: the daemon's fan controllers attach curve data to their fans from one goroutine per fan, at about
+// the same time (after start-up: loaded from the database; after the analyses when they may run in parallel). Each
+// fan's limits follow that fan's own data.
+func c13ConcurrentAttach(ctx *Ctx, r *rand.Rand) {
+	const G, N = 4, 300
+	type set struct {
+		d          c13Data
+		sLo, sHi   int
+		mx         int
+	}
+	var sets []set
+	for len(sets) < 3 {
+		d := genC13Data(r)
+		if sLo, sHi, mx, ok := c13Ref(d); ok {
+			sets = append(sets, set{d, sLo, sHi, mx})
+		}
+	}
+	var wg sync.WaitGroup
+	bad := make([]string, G)
+	for g := 0; g < G; g++ {
+		cfg := configuration.FanConfig{ID: uniqueId("c13conc"), NeverStop: g%2 == 0,
+			HwMon: &configuration.HwMonFanConfig{Platform: "x", Index: 1, PwmPath: "/nonexistent/pwm1", RpmInputPath: "/nonexistent/fan1_input", PwmEnablePath: "/nonexistent/pwm1_enable"}}
+		fan, err := fans.NewFan(cfg)
+		if err != nil {
+			ctx.Inconclusive("NewFan: " + err.Error())
+			return
+		}
+		wg.Add(1)
+		go func(g int, fan fans.Fan) {
+			defer wg.Done()
+			for i := 0; i < N && bad[g] == ""; i++ {
+				st := sets[(g+i)%len(sets)]
+				m := map[int]float64{}
+				for k, v := range st.d {
+					m[k] = v
+				}
+				p, msg := Guard(func() { _ = fan.AttachFanRpmCurveData(&m) })
+				if p {
+					bad[g] = "panic: " + firstLine(msg)
+					return
+				}
+				start, mx := fan.GetStartPwm(), fan.GetMaxPwm()
+				if (start != st.sLo && start != st.sHi) || mx != st.mx {
+					bad[g] = fmt.Sprintf("attachment %d of fan %d: start %d max %d, its own data give start %d (or %d) max %d", i, g, start, mx, st.sHi, st.sLo, st.mx)
+				}
+			}
+		}(g, fan)
+	}
+	wg.Wait()
+	ctx.Eval(G * N)
+	for _, b := range bad {
+		if b != "" {
+			ctx.Violation("concurrent-attach:limits-do-not-follow-the-fans-own-data", b+fmt.Sprintf(" (%d fans attaching from their own goroutines)", G), nil)
+			return
+		}
+	}
+	ctx.Nontrivial("concurrent-attach|" + hash64(jsonStr(sets[0].d)))
+}
+
 func init() {
 	register("C13", func(ctx *Ctx) {
 		r := ctx.Rng
@@ -394,6 +454,9 @@ func init() {
 			}
 			if i%4000 == 700 {
 				c13Tachless(ctx, r)
+			}
+			if i%4000 == 1700 {
+				c13ConcurrentAttach(ctx, r)
 			}
 		}
 	})
